@@ -105,6 +105,15 @@ check("C13", "exploration",
       "Trusted: dyadic-rational test values make exact laws exactly checkable; tolerances 64*eps*(size+1) elsewhere.",
       "property-based testing (Hypothesis) with algebraic-law oracles", "DESIGN.md C13")
 
+check("C14", "exploration",
+      "Generated constant programs (output independent of the argument, or dependent only through shape/type queries, comparisons, the "
+      "non-differentiable set, a where-condition, or an enclosing level's variable) x output kinds x argument kinds x 12 operators, also "
+      "evaluated inside an outer reverse/forward differentiation: the result must be exact zeros of the right space. Every entry of the "
+      "non-differentiable list (enumerated at run time, all 49 covered) in every positional slot: plain NumPy-equal value and type, local "
+      "constancy confirmed by NumPy, composition law exact in both modes.",
+      "Trusted: raw NumPy for reference values and local constancy.",
+      "property-based testing (Hypothesis) with exact-zero / differential oracles and a metamorphic composition law", "DESIGN.md C14")
+
 NOT_YET = {}
 
 
